@@ -223,7 +223,9 @@ func c11GuardRules(c *c11ctx) {
 			for _, goal := range g.SinkGoals(s) {
 				cons := fmt.Sprintf("%s of %s in %s: %s", s.Kind, sinkContainer(s), FuncName(fn), goal.What)
 				o := eng.Discharge(fn, goal.P, goal.NE, s.Instr, 0, map[string]bool{})
-				if o.OK {
+				if o.Unsure && !o.OK {
+					r.Unk("C11.R3", cons, p.InstrPos(s.Instr), fmt.Sprintf("request-derived value (%s): `%s` not proven, and not decided: %s", t.vals[s.V], goal.What, strings.Join(o.Trail, "; ")))
+				} else if o.OK {
 					r.OK("C11.R3", cons, p.InstrPos(s.Instr), strings.Join(o.Trail, "; "))
 				} else {
 					r.Bad("C11.R3", cons, p.InstrPos(s.Instr), fmt.Sprintf("request-derived value (%s) reaches this use without a dominating guard for `%s`: %s", t.vals[s.V], goal.What, strings.Join(o.Trail, "; ")))
